@@ -235,10 +235,10 @@ SPECS = {
         ((('q0', 'TseitinFormula({_it = networkx.random_regular_graph(d, v); _it = Graph.normalize(_it)}, [True])'), ('q1', 'range(1, k + 1)')), (), 'add_clause', ('[shift_edgelit(q1, c0) for c0 in q0] + g3(q1, None)',)),
         # for q0 in range(1, k + 1) for (q1, q2) in combinations(g2(q0, None), 2) for q3 in g1(q0, None): add_clause([-q3, q1, q2])
         ((('q0', 'range(1, k + 1)'), ('(q1, q2)', 'combinations(g2(q0, None), 2)'), ('q3', 'g1(q0, None)')), (), 'add_clause', ('[-q3, q1, q2]',)),
-        # for (q0, q1) in zip(p2 + p3, combinations(p1, len(p1) - 1)): k0: add_clause([p0] + q1 + {for (q2, q3) in zip(p2 + p3, combinations(p1, len(p1) - 1)): _it = _v0, if len(_it) + 1 == len(p2 + p3) and TseitinFormula({_it = networkx.random_regular_graph(d, v); _it = Graph.normalize(_it)}, [True]).number_of_variables() < len(_it): del _it[TseitinFormula({_it = networkx.random_regular_graph(d, v); _it = Graph.normalize(_it)}, [True]).number_of_variables()], F.add_clause([p0] + q3 + _it + [-q2]), _v0.append(q2)} + [-q0])
-        ((('(q0, q1)', 'zip(p2 + p3, combinations(p1, len(p1) - 1))'),), (), 'k0: add_clause', ('[p0] + q1 + {for (q2, q3) in zip(p2 + p3, combinations(p1, len(p1) - 1)): _it = _v0, if len(_it) + 1 == len(p2 + p3) and TseitinFormula({_it = networkx.random_regular_graph(d, v); _it = Graph.normalize(_it)}, [True]).number_of_variables() < len(_it): del _it[TseitinFormula({_it = networkx.random_regular_graph(d, v); _it = Graph.normalize(_it)}, [True]).number_of_variables()], F.add_clause([p0] + q3 + _it + [-q2]), _v0.append(q2)} + [-q0]',)),
-        # for q0 in range(1, k + 1) for q1 in g2(q0, None): call k0(q1, g1(q0, None), {_it = [None]; for q2 in range(1, k + 1): _it.append(F.new_graph_edges({_it = networkx.random_regular_graph(d, v); _it = Graph.normalize(_it)}))}[q0], g3(q0, None))
-        ((('q0', 'range(1, k + 1)'), ('q1', 'g2(q0, None)')), (), 'call k0', ('q1', 'g1(q0, None)', '{_it = [None]; for q2 in range(1, k + 1): _it.append(F.new_graph_edges({_it = networkx.random_regular_graph(d, v); _it = Graph.normalize(_it)}))}[q0]', 'g3(q0, None)')),
+        # for (q0, q1) in zip(p2 + p3, combinations(p1, len(p1) - 1)): k0: add_clause([p0] + q1 + {for (q2, q3) in zip(p2 + p3, combinations(p1, len(p1) - 1)): _it = _v0, if len(_it) + 1 == len(p2 + p3) and TseitinFormula(_v1, [True]).number_of_variables() < len(_it): del _it[TseitinFormula(_v1, [True]).number_of_variables()], F.add_clause([p0] + q3 + _it + [-q2]), _v0.append(q2)} + [-q0])
+        ((('(q0, q1)', 'zip(p2 + p3, combinations(p1, len(p1) - 1))'),), (), 'k0: add_clause', ('[p0] + q1 + {for (q2, q3) in zip(p2 + p3, combinations(p1, len(p1) - 1)): _it = _v0, if len(_it) + 1 == len(p2 + p3) and TseitinFormula(_v1, [True]).number_of_variables() < len(_it): del _it[TseitinFormula(_v1, [True]).number_of_variables()], F.add_clause([p0] + q3 + _it + [-q2]), _v0.append(q2)} + [-q0]',)),
+        # for q0 in range(1, k + 1) for q1 in g2(q0, None): call k0(q1, g1(q0, None), {_it = [None]; for q2 in range(1, k + 1): _it.append(F.new_graph_edges(_v0))}[q0], g3(q0, None))
+        ((('q0', 'range(1, k + 1)'), ('q1', 'g2(q0, None)')), (), 'call k0', ('q1', 'g1(q0, None)', '{_it = [None]; for q2 in range(1, k + 1): _it.append(F.new_graph_edges(_v0))}[q0]', 'g3(q0, None)')),
         # for q0 in range(1, k + 1) for q1 in g2(q0, None) for q2 in g3(q0, None): add_clause([-g0(q0, 1), -q2, g0(q0, 3)])
         ((('q0', 'range(1, k + 1)'), ('q1', 'g2(q0, None)'), ('q2', 'g3(q0, None)')), (), 'add_clause', ('[-g0(q0, 1), -q2, g0(q0, 3)]',)),
         # for q0 in range(1, k + 1) for q1 in g2(q0, None) for q2 in g3(q0, None): add_clause([-g0(q0, 2), -g0(q0, 3), -q2])
